@@ -41,7 +41,7 @@ Str(cp) == [t |-> "str", cp |-> cp]
 Arr(s) == [t |-> "arr", v |-> s]
 Obj(kv) == [t |-> "obj", kv |-> kv]
 
-IsInt(v) == v.t = "num" /\ v.fr = 0 /\ v.n > -BIG /\ v.n < BIG
+IsInt(v) == v.t = "num" /\ v.fr = 0 /\ v.a = <<>> /\ v.n > -BIG /\ v.n < BIG
 Truthy(v) == ~(v.t = "null" \/ (v.t = "bool" /\ ~v.b))
 
 \* ------------------------------------------------------------------ ends
@@ -241,7 +241,8 @@ Arith(o, a, b) ==
            [] OTHER -> EBinop(a, b, M_subtracted))
     [] o = "*" ->
         (CASE a.t = "num" /\ b.t = "num" ->
-                IF IsInt(a) /\ IsInt(b) /\ Abs(a.n) < 32768 /\ Abs(b.n) < 32768 THEN MkInt(a.n * b.n) ELSE RSkip
+                IF IsInt(a) /\ IsInt(b) /\ Abs(a.n) < 32768 /\ Abs(b.n) < 32768 /\ ~(a.n * b.n = 0 /\ (a.n < 0 \/ b.n < 0))
+                THEN MkInt(a.n * b.n) ELSE RSkip      \* 0 * -1 is the float -0
            [] a.t = "obj" /\ b.t = "obj" -> R1(Obj(MergeObj(a.kv, b.kv, 1)))
            [] (a.t = "str" /\ b.t = "num") \/ (a.t = "num" /\ b.t = "str") -> RSkip   \* string repetition
            [] OTHER -> EBinop(a, b, M_multiplied))
@@ -249,7 +250,7 @@ Arith(o, a, b) ==
         (CASE a.t = "num" /\ b.t = "num" ->
                 IF ~(IsInt(a) /\ IsInt(b)) THEN RSkip
                 ELSE IF b.n = 0 THEN RMsg(<<Dump(a), M_and, Dump(b), M_divided, M_divzero>>)
-                ELSE IF Abs(a.n) % Abs(b.n) # 0 THEN RSkip
+                ELSE IF Abs(a.n) % Abs(b.n) # 0 \/ (a.n = 0 /\ b.n < 0) THEN RSkip
                 ELSE MkInt((Abs(a.n) \div Abs(b.n)) * (IF (a.n < 0) # (b.n < 0) THEN -1 ELSE 1))
            [] a.t = "str" /\ b.t = "str" -> RSkip   \* split
            [] OTHER -> EBinop(a, b, M_divided))
@@ -423,7 +424,7 @@ Apply(K, v) ==
     [] K.k = "binL" -> Arith(K.o, v, K.rv)
     [] K.k = "cmpR" -> BindR(Eval(K.l, K.input, K.env), [k |-> "cmpL", o |-> K.o, rv |-> v])
     [] K.k = "cmpL" -> CmpOp(K.o, v, K.rv)
-    [] K.k = "neg" -> IF v.t = "num" THEN (IF IsInt(v) THEN R1(NumI(-v.n)) ELSE RSkip)
+    [] K.k = "neg" -> IF v.t = "num" THEN (IF IsInt(v) /\ v.n # 0 THEN R1(NumI(-v.n)) ELSE RSkip)   \* -(0) is the float -0
                       ELSE RMsg(<<Dump(v), M_negated>>)
     [] K.k = "and" -> IF ~Truthy(v) THEN R1(Bool(FALSE)) ELSE BindR(Eval(K.r, K.input, K.env), [k |-> "tobool"])
     [] K.k = "or" -> IF Truthy(v) THEN R1(Bool(TRUE)) ELSE BindR(Eval(K.r, K.input, K.env), [k |-> "tobool"])
